@@ -134,7 +134,11 @@ class XPathArray(XPathFunction):
             if isinstance(item, XPathArray):
                 yield from item.iter_flatten(context)
             elif isinstance(item, list):
-                yield from item
+                for x in item:
+                    if isinstance(x, XPathArray):
+                        yield from x.iter_flatten(context)
+                    else:
+                        yield x
             else:
                 yield item
 
